@@ -292,6 +292,10 @@ class StmtMixin:
                 for r2, v, s in self.ev(kwd.value, s, fx):
                     binds[kwd.arg] = v
                     break
+            for name, dflt in func.defaults.items():
+                if name not in binds:
+                    ok, v = self.prog.try_fold(dflt, func.module)
+                    binds[name] = const(v) if ok else ("unk", "default:" + name)
             self.emit(s, fx, "CALL", n, func=func.qual, recv=selfterm, args=tuple(args), kw=())
             from .interp import Fx
             nfx = Fx(func, selfterm if selfterm is not None else fx.selfterm, None)
@@ -346,7 +350,10 @@ class StmtMixin:
             uses = [x for x in ast.walk(fx.func.node) if isinstance(x, ast.Name) and x.id == it.id]
             asg = [x for x in ast.walk(fx.func.node) if isinstance(x, ast.Assign) and len(x.targets) == 1 and isinstance(x.targets[0], ast.Name)
                    and x.targets[0].id == it.id]
-            if len(uses) == 2 and len(asg) == 1 and isinstance(asg[0].value, ast.GeneratorExp) and it.id not in fx.func.params:
+            lazy = len(asg) == 1 and (isinstance(asg[0].value, ast.GeneratorExp) or (
+                isinstance(asg[0].value, ast.Call) and not asg[0].value.keywords
+                and (asg[0].value.func.attr if isinstance(asg[0].value.func, ast.Attribute) else getattr(asg[0].value.func, "id", None)) == "chain"))
+            if len(uses) == 2 and lazy and it.id not in fx.func.params:
                 read = {x.id for x in ast.walk(asg[0].value) if isinstance(x, ast.Name) and isinstance(x.ctx, ast.Load)}
                 lo, hi = asg[0].lineno, n.lineno
                 rebound = any(isinstance(x, ast.Name) and isinstance(x.ctx, ast.Store) and x.id in read and lo < getattr(x, "lineno", 0) < hi
